@@ -5,9 +5,9 @@ import kcommon as kc
 
 PID = "C01"
 MODEL_TARGETS = ["Proofs/Eval.vo", "Amount/F64.vo", "Amount/Dec.vo", "Gen/Catalogue.vo"]
-PROOF_TARGETS = ["Props/C01.vo", "Pinned/C01.vo", "Props/Accuracy.vo", "Pinned/Accuracy.vo", "Props/AccuracyDec.vo", "Pinned/AccuracyDec.vo"]
-PROPS = ["Props/C01.v", "Props/Accuracy.v", "Props/AccuracyDec.v"]
-COQCHK = ["QV.Props.C01", "QV.Props.Accuracy", "QV.Props.AccuracyDec"]
+PROOF_TARGETS = ["Props/C01.vo", "Pinned/C01.vo", "Props/Accuracy.vo", "Pinned/Accuracy.vo", "Props/AccuracyDec.vo", "Pinned/AccuracyDec.vo", "Props/Programs.vo", "Pinned/Programs.vo"]
+PROPS = ["Props/C01.v", "Props/Accuracy.v", "Props/AccuracyDec.v", "Props/Programs.v"]
+COQCHK = ["QV.Props.C01", "QV.Props.Accuracy", "QV.Props.AccuracyDec", "QV.Props.Programs"]
 TRUSTED_BASE = [
     "Coq 8.16.1 kernel (coqc); coqchk in the thorough tier",
     "translator rs2j+j2v: LinearScaledUnit::ratio, HasRefUnit::equiv_amount, HasRefUnit::convert are translated from src/lib.rs on every run (Gen/Kernels.v); scale tables from the macro's actual output (Gen/Catalogue.v)",
